@@ -31,6 +31,6 @@ func execute(sc cx.Script, rep *kit.Report) error {
 func TestC01(t *testing.T) {
 	r := &kit.Runner[cx.Script]{Name: "TestC01", Exec: execute}
 	r.Run(t, func(rt *rapid.T) cx.Script {
-		return cx.Gen(rt, cx.GenOpts{MaxChans: 3, Groups: 2, MaxOps: 40})
+		return cx.Gen(rt, cx.GenOpts{MaxChans: 3, Groups: 2, MaxOps: 40, PersistIntervals: true})
 	})
 }
